@@ -130,6 +130,9 @@ func main() {
 		}
 	})
 
+	if replay != nil {
+		c.Finish(vlib.FinishOpts{Rule: "replay of one child batch", MinNontrivial: 2})
+	}
 	c.Finish(vlib.FinishOpts{
 		Rule: "case = one host-device copy (path emu|dma|tmagic, direction, element type, arena offset, length) issued through the real driver API on a real platform, " +
 			"judged by a host-side shadow byte array per context (updated by every H2D and by the defined effect of every generated element-wise kernel) " +
@@ -144,26 +147,28 @@ func main() {
 		},
 		MinNontrivial: c.N(800, 20000),
 		MinCounters: map[string]int64{
-			"generated_copy_ops|emu":                           int64(c.N(1900, 95000)),
-			"generated_copy_ops|dma":                           int64(c.N(140, 4800)),
-			"generated_copy_ops|tmagic":                        int64(c.N(25, 400)),
-			"d2h_results_compared":                             int64(c.N(3000, 100000)),
-			"copies_crossing_nonadjacent_pages_unaligned|h2d":  int64(c.N(200, 5000)),
-			"copies_crossing_gpu_boundary":                     int64(c.N(100, 3000)),
-			"kernels_launched|dma":                             int64(c.N(30, 500)),
-			"d2h_overlapping_last_kernel_write":                int64(c.N(30, 500)),
-			"flush_requests_sent":                              int64(c.N(50, 1000)),
-			"copies_whose_last_reply_was_a_flush":              int64(c.N(3, 30)),
-			"dma_sub_requests_checked":                         int64(c.N(5000, 100000)),
-			"driver_copy_commands_checked":                     int64(c.N(300, 5000)),
-			"driver_commands_chunking_checked":                 int64(c.N(200, 4000)),
-			"driver_requests_linked_to_dma":                    int64(c.N(300, 5000)),
+			"generated_copy_ops|emu":                                  int64(c.N(1900, 95000)),
+			"generated_copy_ops|dma":                                  int64(c.N(140, 4800)),
+			"generated_copy_ops|tmagic":                               int64(c.N(25, 400)),
+			"d2h_results_compared":                                    int64(c.N(3000, 100000)),
+			"copies_crossing_nonadjacent_pages_unaligned|h2d":         int64(c.N(200, 5000)),
+			"copies_crossing_gpu_boundary":                            int64(c.N(100, 3000)),
+			"kernels_launched|dma":                                    int64(c.N(30, 500)),
+			"d2h_overlapping_last_kernel_write":                       int64(c.N(30, 500)),
+			"flush_requests_sent":                                     int64(c.N(50, 1000)),
+			"copies_whose_last_reply_was_a_flush":                     int64(c.N(3, 30)),
+			"dma_sub_requests_checked":                                int64(c.N(5000, 100000)),
+			"driver_copy_commands_checked":                            int64(c.N(300, 5000)),
+			"driver_commands_chunking_checked":                        int64(c.N(200, 4000)),
+			"driver_requests_linked_to_dma":                           int64(c.N(300, 5000)),
 			"kernels_enqueued_while_other_context_has_copies_pending": 1,
-			"canonical_cases|emu":                              100,
-			"canonical_cases|flushlast":                        6,
-			"canonical_cases|contain-slack-d2h":                1,
-			"canonical_cases|samepid":                          1,
-			"canonical_cases|stale":                            6,
+			"copy_commands_overlapping_a_running_kernel":              int64(c.N(20, 300)),
+			"canonical_cases|flushlast-same-gpu":                      2,
+			"canonical_cases|emu":                                     100,
+			"canonical_cases|flushlast":                               6,
+			"canonical_cases|contain-slack-d2h":                       1,
+			"canonical_cases|samepid":                                 1,
+			"canonical_cases|stale":                                   6,
 		},
 	})
 }
